@@ -39,10 +39,15 @@ func C02(r *Run) *core.Report {
 	n := toctouCheck(r, rep, "C02.U2", fns)
 	rep.MinCount("C02.U2", "cache methods and closures examined for check-then-act", n, 60)
 	nOps := 0
+	names, extra := cacheMethodList(r)
 	for twin := 0; twin < 2; twin++ {
-		for _, name := range cachePublic {
+		for _, name := range names {
 			mp := methodPaths(r, twin, name)
-			if undecidedPaths(r, rep, "C02.U0", mp) {
+			if extra[name] {
+				if !cleanPaths(mp) {
+					continue
+				}
+			} else if undecidedPaths(r, rep, "C02.U0", mp) {
 				continue
 			}
 			rep.Fn(fn(mp.Fn))
